@@ -271,7 +271,15 @@ def check(ctx):
                 parents[c] = p
         calls = [n for n in walk_shallow(f.node) if isinstance(n, ast.Call) and isinstance(n.func, ast.Attribute) and n.func.attr == name]
         if not calls:
-            rep.refuted("R-C41-inner", qm.relpath, f.qualname, f.node, f"QueuingManager.{name} no longer delegates to the active context")
+            # delegation through a private helper of the class (`cls._forward("append", obj, **kwargs)`) is not followed
+            via = [n_ for n_ in walk_shallow(f.node) if isinstance(n_, ast.Call) and isinstance(n_.func, ast.Attribute)
+                   and isinstance(n_.func.value, ast.Name) and n_.func.value.id in ("cls", "self") and n_.func.attr.startswith("_")
+                   and QM.own_method(n_.func.attr) is not None]
+            if via:
+                deleg += 1
+                rep.unknown("R-C41-inner", f"{qm.relpath}:{f.qualname}", f"delegates through the private helper `{via[0].func.attr}`, which is not followed")
+            else:
+                rep.refuted("R-C41-inner", qm.relpath, f.qualname, f.node, f"QueuingManager.{name} no longer delegates to the active context")
             continue
         for c in calls:
             deleg += 1
@@ -536,7 +544,13 @@ def _own(ix, rep):
 
         apps = [nd for nd in cfg.stmts() if is_append(nd)]
         if not apps:
-            rep.refuted("R-C41-own", rel, q.qualname, q.node, "queue() never appends self to the context: the operator is silently not recorded")
+            # `return self._queue_into(context)` / `_record(self, context)`: the context is handed on, not followed
+            handed = [c_ for c_ in walk_shallow(q.node) if isinstance(c_, ast.Call) and not (isinstance(c_.func, ast.Attribute) and c_.func.attr in ("remove", "recording"))
+                      and any(isinstance(a_, ast.Name) and a_.id == ctxname for a_ in list(c_.args) + [k_.value for k_ in c_.keywords])]
+            if handed:
+                rep.unknown("R-C41-own", f"{rel}:{q.qualname}", f"the context is handed to `{norm(handed[0].func)}`; the append there is not followed")
+            else:
+                rep.refuted("R-C41-own", rel, q.qualname, q.node, "queue() never appends self to the context: the operator is silently not recorded")
             continue
         # a path that skips the append must go through the false arm of a recording() test
         p = cfg.path_avoiding(cfg.entry, cfg.exit, is_append)
